@@ -26,6 +26,7 @@ type Clause struct {
 
 type FnContract struct {
 	Key        string // normalized function key
+	PkgPath    string // package of the file that declares the contract (resolves bare identifiers)
 	ParamNames []string
 	Tags       []string
 	Safety     []string // tags for automatic safety obligations
@@ -64,17 +65,18 @@ type Macro struct {
 }
 
 type ContractSet struct {
-	Macros  map[string]*Macro
-	Fns     map[string]*FnContract
-	Order   []string
-	Lemmas  []*Lemma
-	Imports map[string]string
+	Implements map[string]string // concrete receiver "(*pkg.T)" -> interface "(pkg.I)"
+	Macros     map[string]*Macro
+	Fns        map[string]*FnContract
+	Order      []string
+	Lemmas     []*Lemma
+	Imports    map[string]string
 }
 
 var clauseKw = map[string]bool{"func": true, "requires": true, "ensures": true, "loop": true, "calls": true,
 	"tags": true, "safety": true, "boundary": true, "modifies": true, "trusted": true, "pure": true,
 	"bounded": true, "lemma": true, "import": true, "inline": true, "nobody": true, "nullable": true,
-	"fresh": true, "maypanic": true, "end": true, "macro": true, "assumes": true}
+	"fresh": true, "maypanic": true, "end": true, "macro": true, "assumes": true, "implements": true}
 
 var reTagList = regexp.MustCompile(`^\[([A-Za-z0-9, ]+)\]\s*`)
 var reAtName = regexp.MustCompile(`^@([A-Za-z0-9_.\-]+)\s*`)
@@ -161,6 +163,17 @@ func (cs *ContractSet) ParseContractFile(path, pkgPath string) error {
 			return c, nil
 		}
 		switch kw {
+		case "implements":
+			f := strings.Fields(rest)
+			if len(f) != 2 {
+				return fail("implements (*pkg.Type) (pkg.Interface)")
+			}
+			ck, _, err1 := cs.normalizeFuncKey(f[0]+".X", pkgPath)
+			ik, _, err2 := cs.normalizeFuncKey(f[1]+".X", pkgPath)
+			if err1 != nil || err2 != nil {
+				return fail("implements: %v %v", err1, err2)
+			}
+			cs.Implements[strings.TrimSuffix(ck, ".X")] = strings.TrimSuffix(ik, ".X")
 		case "macro":
 			i := strings.Index(rest, "=")
 			m := reFuncSpec.FindStringSubmatch(strings.TrimSpace(rest[:max(i, 0)]))
@@ -192,7 +205,7 @@ func (cs *ContractSet) ParseContractFile(path, pkgPath string) error {
 			if old, ok := cs.Fns[key]; ok {
 				cur = old // allow splitting a contract across files
 			} else {
-				cur = &FnContract{Key: key, File: path, Line: l.line}
+				cur = &FnContract{Key: key, File: path, Line: l.line, PkgPath: pkgPath}
 				cs.Fns[key] = cur
 				cs.Order = append(cs.Order, key)
 			}
@@ -367,17 +380,23 @@ func (cs *ContractSet) normalizeFuncKey(spec, pkgPath string) (string, []string,
 type Expr interface{ exprNode() }
 
 type (
-	EIdent  struct{ Name string }
-	EInt    struct{ Val string }
-	EStr    struct{ Val string }
-	EBool   struct{ Val bool }
-	ENil    struct{}
-	EUnary  struct{ Op string; X Expr }
+	EIdent struct{ Name string }
+	EInt   struct{ Val string }
+	EStr   struct{ Val string }
+	EBool  struct{ Val bool }
+	ENil   struct{}
+	EUnary struct {
+		Op string
+		X  Expr
+	}
 	EBinary struct {
 		Op   string
 		X, Y Expr
 	}
-	ESel   struct{ X Expr; Name string }
+	ESel struct {
+		X    Expr
+		Name string
+	}
 	EIndex struct{ X, I Expr }
 	ECall  struct {
 		Fn   string
